@@ -211,6 +211,30 @@ def run(ctx):
     ctx.rule("C10.R12", "genotypes keep phasing: every allele code returned by the two allele encoders (missing allele included) has consulted the phasing")
     allele_phasing_rule(ctx, "C10.R12")
 
+
+    ctx.rule("C10.R13", "below VCF 4.4 the phasing of the first allele is implicit: unphased as soon as ANY later allele of the genotype is "
+                        "unphased. The lazy BCF view decides it over all remaining alleles (the phase-bit test sits in a loop or under an "
+                        "iterator any/all/find), not from the second allele alone — ploidy 1 and 2 cannot tell the difference, `0|1/2` can")
+    n13 = 0
+    for k13, f13 in sorted(fb.fns.items()):
+        if not f13.blocks or not re.search(r"^noodles_bcf::.*::implicit_first_allele_phasing$", k13):
+            continue
+        n13 += 1
+        ctx.saw_fn(f13)
+        body13 = set().union(*[bd for _h, bd in C.natural_loops(f13)] or [set()])
+        tests = [b for b, c in f13.calls() if re.search(r"::is_phased$", c.get("f") or "")]
+        tests += [bi for bi, blk in enumerate(f13.blocks) for st in blk["s"]
+                  if st[0] == "=" and st[2][0] == "bin" and st[2][1] == "BitAnd" and C.eval_const(f13, st[2][3]) == 1]
+        via_iter = any(re.search(r"Iterator::(any|all|find|position|try_fold|fold)$", c.get("f") or "") for _b, c in f13.calls())
+        if via_iter or (tests and all(b in body13 for b in tests)):
+            ctx.ok("C10.R13", k13, "the phase-bit test runs for every remaining allele (%s)" % ("iterator" if via_iter else "loop"), f13.loc())
+        else:
+            ctx.violation("C10.R13", "C10.R13/implicit-phasing-from-one-allele/" + k13,
+                          "%s decides the implicit phasing of the first allele without visiting all remaining alleles: for ploidy >= 3 with "
+                          "mixed phasing (`0|1/2`) the lazy view reports the first allele phased although a later allele is unphased, and "
+                          "disagrees with the eager decoder" % k13, f13.loc())
+    ctx.floor("C10.R13", "implicit_first_allele_phasing implementations in noodles_bcf", n13, 1)
+
     ctx.rule("C10.R4", "string-map lookups on decode are error exits on a missing index")
     n = 0
     for k, f in sorted(fb.fns.items()):
